@@ -13,7 +13,7 @@ RAISES = {
     'YAML': ['YAMLError', 'ReaderError', 'ScannerError', 'ParserError'],
     'XML': ['ParseError'],
     'HTML': ['ParseError'],
-    'PLIST': ['ExpatError', 'InvalidFileException', 'ValueError', 'IndexError', 'KeyError'],
+    'PLIST': ['ExpatError', 'InvalidFileException', 'ValueError', 'IndexError', 'KeyError', 'AttributeError'],   # AttributeError: plistlib on a malformed <date>
 }
 for cls, excs in RAISES.items():
     REG.contract(f'{cls}.build_tree', params={'self': f'ref[{cls}]', 'path': 'opaque', 'options': 'opaque'},
